@@ -62,6 +62,9 @@ func main() {
 			nn := n
 			out.Do(fmt.Sprintf("groupk %d", nn), func() string { return fmt.Sprintf("k=%d", groupKReal(nn)) })
 		}
+		for _, sc := range impersonationScripts() {
+			r.runScript(sc)
+		}
 		for _, sc := range boundaryScripts() {
 			r.runScript(sc)
 		}
@@ -103,6 +106,7 @@ func main() {
 		// deterministic small-scope families first, random scripts last; violations are printed
 		// (and flushed) the moment they are found, so a time-boxed run loses nothing
 		scripts := loadCorpus(os.Getenv("VERIF_CORPUS"))
+		scripts = append(scripts, impersonationScripts()...)
 		scripts = append(scripts, leadScripts()...)
 		scripts = append(scripts, boundaryScripts()...)
 		scripts = append(scripts, exhaustiveSmall()...)
